@@ -195,24 +195,57 @@ def checkTx (cfg : Cfg K V) (hs : Handlers K V C E T H D) (e : E) (n : Node K V 
       let s3 := if ok then (match s2.csess with | some s => s | none => s2) else s2.dsess
       ({ n with chk := ovOf s3, vol := r2.2.2, aim := .check }, ok)
 
-/-- run a block hook: against the deliver state when it re-aims its stores
-    (`WithState(app.Context.deliver)`), otherwise against whatever state the singletons were
-    last aimed at -/
+/-- `State.Unmetered()` (storage/state.go): a state over the SAME session and block cache whose
+    `GasStore` has a private calculator with limit `MaxInt64` that is thrown away afterwards: no
+    access is refused and nothing is charged to the block's meter.
+
+    Representation: `metered := false` (the unmetered path of layer K) with a private counter that
+    starts at 0, NOT a metered state with a huge private limit. `Int` has no maximum, and a finite
+    private limit could be reached by some program (the hooks are arbitrary programs here). The two
+    agree on every answer: the unmetered path of `get` / `has` / `set` / `del` / `iter` / `iterAll`
+    in OLP/KV/Model.lean returns what the metered path returns when nothing is refused — the view
+    (`get_exact`, `has_exact`, `set_exact`, `del_exact` of OLP/KV/Refine.lean state both paths at
+    once; `has` on a pending delete, the `TOMBSTONE` refusal of `set`, the `deleted` filter of the
+    iterators do not look at `metered`). The one observable difference: a hook that READ the level
+    of its throw-away calculator (`.gas`) sees its own `.burn`s only, not the flat costs of its
+    store accesses; no hook of /repo reads it, and the level is discarded with the calculator. -/
+def Ov.unmetered (o : Ov K V) (t : Tree K V) : St K V :=
+  { sess := o.sess, cache := o.cache, metered := false, gas := ⟨0, 0⟩, tree := t }
+
+/-- run a block hook. When it re-aims its stores (`WithState(app.Context.deliver)`), or when the
+    singletons were last aimed at the deliver state, it runs against the deliver state made
+    UNMETERED (`app.Context.deliver = app.Context.deliver.Unmetered()` at the start of `blockEnder`
+    since 359026c; `app.Context.deliver = metered.Unmetered()` with
+    `defer func() { app.Context.deliver = metered }()` in `blockBeginner` since fc77c5a): the hook's
+    accesses are never refused and consume nothing of the block's gas; its writes land in the same
+    session / block cache; meter and meteredness of the deliver state are afterwards exactly what
+    they were before the hook. Otherwise (no re-aim while the singletons point at the check state)
+    it runs against the CHECK state, metered by the check state's own calculator, as before.
+
+    (A hook that does not re-aim while the singletons point at the deliver state holds, in the Go
+    code, the `State` object of the last DeliverTx: the same block cache behind the block's meter.
+    The model runs it unmetered like the re-aimed ones; every hook of /repo re-aims — T3 table
+    `hookReads` — and every theorem about hooks assumes `AllAimed`.) -/
 def runHook (cfg : Cfg K V) (e : E) (n : Node K V C T H D) (hk : Bool × Prog K V C E Unit) :
     Node K V C T H D :=
   if hk.1 || n.aim = .deliver then
-    let r := hk.2.run cfg (n.dlv.toSt n.tree) n.vol e
-    { n with dlv := ovOf r.2.1, vol := r.2.2 }
+    let r := hk.2.run cfg (n.dlv.unmetered n.tree) n.vol e
+    { n with dlv := { sess := r.2.1.sess, cache := r.2.1.cache,
+                      metered := n.dlv.metered, gas := n.dlv.gas },
+             vol := r.2.2 }
   else
     let r := hk.2.run cfg (n.chk.toSt n.tree) n.vol e
     { n with chk := ovOf r.2.1, vol := r.2.2 }
 
-/-- `blockBeginner`: fresh deliver state with a fresh gas calculator, then the hooks -/
+/-- `blockBeginner`: fresh deliver state with a fresh gas calculator, then the hooks — on the
+    unmetered view of that state (fc77c5a): the transactions find the meter at 0 whatever the hooks
+    read and wrote -/
 def beginBlock (cfg : Cfg K V) (hs : Handlers K V C E T H D) (e : E) (n : Node K V C T H D) :
     Node K V C T H D :=
   (hs.begin (n.height + 1)).foldl (runHook cfg e) { n with dlv := Ov.fresh hs.gasLimit }
 
-/-- `blockEnder` -/
+/-- `blockEnder`: the hooks, on the unmetered view of the deliver state (359026c): they run
+    whatever the transactions have left of the block gas -/
 def endBlock (cfg : Cfg K V) (hs : Handlers K V C E T H D) (e : E) (n : Node K V C T H D) :
     Node K V C T H D :=
   (hs.endb (n.height + 1)).foldl (runHook cfg e) n
